@@ -127,6 +127,9 @@ struct Hdr {
 };
 static_assert(sizeof(Hdr) == 16);
 
+bool gQuarantine = false;
+void** gParked = nullptr;
+std::size_t gParkedN = 0, gParkedCap = 0;
 std::uint64_t gEpoch = 1;  // 0 = never attributed
 long long gLive = 0;
 int gUntracked = 1;  // start untracked: static init, main()
@@ -165,7 +168,25 @@ static void LedgerFree(void* p) noexcept {
   hb::ClearRange(reinterpret_cast<std::uintptr_t>(p), h->size);
 #endif
   h->epoch = kFreed;
+  if (gQuarantine) {
+    if (gParkedN == gParkedCap) {
+      gParkedCap = gParkedCap == 0 ? 4096 : gParkedCap * 2;
+      gParked = static_cast<void**>(std::realloc(gParked, gParkedCap * sizeof(void*)));
+    }
+    gParked[gParkedN++] = h;
+    return;
+  }
   std::free(h);
+}
+
+void QuarantineFrees(bool on) noexcept {
+  gQuarantine = on;
+  if (!on) {
+    for (std::size_t i = 0; i < gParkedN; ++i) {
+      std::free(gParked[i]);
+    }
+    gParkedN = 0;
+  }
 }
 
 long long LedgerLive() noexcept {
@@ -180,6 +201,7 @@ Untracked::~Untracked() noexcept {
 
 }  // namespace sim
 
+#ifndef SIM_NO_LEDGER
 void* operator new(std::size_t n) {
   return sim::LedgerAlloc(n);
 }
@@ -210,6 +232,8 @@ void operator delete(void* p, const std::nothrow_t&) noexcept {
 void operator delete[](void* p, const std::nothrow_t&) noexcept {
   sim::LedgerFree(p);
 }
+
+#endif  // SIM_NO_LEDGER (diagnostic builds for valgrind: the tool replaces operator new itself)
 
 #if SIM_ASAN
 // exit code 77 classifies sanitizer reports; leaks are the ledger's job (LSan cannot see through fiber stacks anyway)
@@ -670,6 +694,23 @@ void SleepNs(std::uint64_t ns) {
   auto* s = yaclib::fault::Scheduler::GetScheduler();
   s->Sleep(s->GetTimeNs() + ns);
 }
+void Digest(std::uint64_t v) noexcept {
+  gEx.hash = (gEx.hash ^ (v + 0x9E3779B97F4A7C15ULL)) * 1099511628211ULL;
+  gEx.hash ^= gEx.hash >> 31;
+}
+void OverrideStats(std::uint32_t fibers, std::uint64_t switches, std::uint64_t steps) noexcept {
+  gEx.nfibers = static_cast<int>(fibers > kMaxFibers ? kMaxFibers : fibers);
+  gEx.switches = switches;
+  gEx.steps = steps;
+}
+void Die(const char* cls, const char* msg) {
+  if (!gFailed) {
+    gFailed = true;
+    SetClass(cls);
+    std::snprintf(gRec->msg, sizeof gRec->msg, "%s", msg);
+  }
+  AbortRun(3);
+}
 static std::string gProfile;
 const char* Profile() noexcept {
   return gProfile.c_str();
@@ -798,6 +839,9 @@ bool ExecuteCase(const RunInput& in, RunOutput& out) {
 
   ++gEpoch;
   gLive = 0;
+  // no heap address is handed out twice within a run: CAS outcomes in pointer-comparing lock-free code then cannot
+  // depend on the allocator's history in this process (ABA), so a replay in another process takes the same path
+  QuarantineFrees(true);
   bool finished = false;
   std::uint64_t sim_ns = 0;
   {
@@ -850,6 +894,7 @@ bool ExecuteCase(const RunInput& in, RunOutput& out) {
   }
   ++gUntracked;
   yaclib::fault::Scheduler::Set(nullptr);
+  QuarantineFrees(false);
   c->Finish();
   char tagbuf[48] = {0};
   if (const char* tag = c->ClassTag()) {
